@@ -114,9 +114,31 @@ def run(eng, R):
                 R.ob("S-wrap", "%s:%s" % (fn, nm), ok, (f.file, c.lineno), "%s forwards `%s` with axis=%s correlated=%s relative=%s" % (fn, nm, axis, got_cor, got_rel))
     for helper_owner, hname in (("module", "_add_error_to_fit_generic"),):
         f = wm.functions.get(hname)
-        src = common.src_of(f.node)
-        ok = "fit.add_error(_err, correlation=1.0, relative=relative, reference=_reference)" in src and "fit.add_matrix_error(error, 'cov', relative=relative, reference=_reference)" in src \
-            and "fit.add_error(error, relative=relative, reference=_reference)" in src
+        fn_ = eng.cnode(f)
+        calls = [c for c in ast.walk(fn_) if isinstance(c, ast.Call) and isinstance(c.func, ast.Attribute) and c.func.attr in ("add_error", "add_matrix_error")
+                 and isinstance(c.func.value, ast.Name) and c.func.value.id == "fit"]
+
+        def lits(c):
+            from .formulas import canon_cond_text
+            return canon_cond_text(common.guard_conditions(fn_, c))
+
+        def tx(e):
+            return " ".join(ast.unparse(e).split()) if e is not None else None
+
+        cor = [c for c in calls if c.func.attr == "add_error" and common.kwarg(c, "correlation") is not None]
+        mat = [c for c in calls if c.func.attr == "add_matrix_error"]
+        plain = [c for c in calls if c.func.attr == "add_error" and common.kwarg(c, "correlation") is None]
+        ok = len(cor) == 1 and len(mat) == 1 and len(plain) == 1
+        if ok:
+            c1, c2, c3 = cor[0], mat[0], plain[0]
+            loops = [n for n in ast.walk(fn_) if isinstance(n, ast.For) and any(x is c1 for x in ast.walk(n))]
+            arr = tx(common.kwarg(c2, "err_matrix", 0))
+            ok = tx(common.kwarg(c1, "correlation")) == "1.0" and "(correlated)" in lits(c1) and len(loops) == 1 and isinstance(loops[0].target, ast.Name) \
+                and tx(common.kwarg(c1, "err_val", 0)) == loops[0].target.id and tx(loops[0].iter) == arr \
+                and "not (correlated)" in lits(c2) and "(%s.ndim == 2)" % arr in lits(c2) and tx(common.kwarg(c2, "matrix_type", 1)) == "'cov'" \
+                and "not (correlated)" in lits(c3) and "not (%s.ndim == 2)" % arr in lits(c3) and tx(common.kwarg(c3, "err_val", 0)) == arr \
+                and all(tx(common.kwarg(c, "relative")) == "relative" for c in (c1, c2, c3)) \
+                and len({tx(common.kwarg(c, "reference")) for c in (c1, c2, c3)}) == 1 and common.kwarg(c1, "reference") is not None
         R.ob("S-wrap", "_add_error_to_fit_generic", ok, (f.file, f.lineno), "the generic helper must forward correlated errors as fully correlated simple errors, 2-d arrays as covariance matrices, else simple errors - each with the relative flag")
     xf = wm.functions["xy_fit"]
     src = common.src_of(xf.node)
@@ -183,21 +205,36 @@ def run(eng, R):
 
     # ---- percent shorthand
     pe = p.resolve_name(p.module("kafe2.fit.representation.error.common_error_tools"), "process_error_sources")
-    src = common.src_of(pe.node)
-    rel_ok, abs_ok, n_rel, n_abs = True, True, 0, 0
-    for c in ast.walk(pe.node):
+    pen = eng.cnode(pe)
+    src = eng.csrc(pe)
+    # the two arrays: `_rel[_i] = <float(_val[:-1])>` under the '%' test, `_abs[_i] = _val` otherwise (placeholders: whatever the locals are called)
+    fill_ok = src.all_like("for _i, _val in enumerate(_err):", "if isinstance(_val, str) and _val.endswith('%'):", "_abs[_i] = _val") \
+        and (src.like("_rel[_i] = float(_val[:-1])") or src.all_like("_pct = float(_val[:-1])", "_rel[_i] = _pct"))
+    rel_name, abs_name = src._binding.get("_rel"), src._binding.get("_abs")
+    from .formulas import canon_cond_text
+    cover = {("rel", True): False, ("rel", False): False, ("abs", True): False, ("abs", False): False}   # (kind, axis is None)
+    forms_ok = True
+    for c in ast.walk(pen):
         if isinstance(c, ast.Call) and isinstance(c.func, ast.Name) and c.func.id == "add_error_to_container" and c.args and common.const_str(c.args[0]) == "simple":
             kws = {k.arg: k.value for k in c.keywords}
             rel = kws.get("relative")
             if not isinstance(rel, ast.Constant) or "err_val" not in kws:
                 continue
             form = Normalizer({}).norm(kws["err_val"]).canon()
-            if rel.value is True:
-                n_rel += 1
-                rel_ok = rel_ok and form == norm_spec("_rel / 100").canon()
-            else:
-                n_abs += 1
-                abs_ok = abs_ok and form == "_abs"
-    R.ob("S-pct", "percent -> relative", n_rel >= 2 and rel_ok and "_rel[i] = _rel_err_percent" in src and "_rel_err_percent = float(_val[:-1])" in src, (pe.file, pe.lineno),
+            kind = "rel" if rel.value is True else "abs"
+            forms_ok = forms_ok and (form == norm_spec("%s / 100" % rel_name).canon() if kind == "rel" else form == abs_name)
+            lits = canon_cond_text(common.guard_conditions(pen, c))
+            axis_kw = "axis" in kws
+            star = [k.value for k in c.keywords if k.arg is None]
+            if "(_axis is None)" in lits and not axis_kw:
+                cover[(kind, True)] = True
+            elif "not (_axis is None)" in lits and common.src_of(kws.get("axis")) == "_axis" if axis_kw else False:
+                cover[(kind, False)] = True
+            elif len(star) == 1 and isinstance(star[0], ast.IfExp):
+                # one call for both variants: **(dict() if _axis is None else dict(axis=_axis))
+                t = " ".join(ast.unparse(star[0]).split())
+                if t in ("dict() if _axis is None else dict(axis=_axis)", "{} if _axis is None else {'axis': _axis}", "{} if _axis is None else dict(axis=_axis)"):
+                    cover[(kind, True)] = cover[(kind, False)] = True
+    R.ob("S-pct", "percent -> relative", fill_ok and forms_ok and cover[("rel", True)] and cover[("rel", False)], (pe.file, pe.lineno),
          "a percent string must become the relative uncertainty percent/100 (on every axis variant)")
-    R.ob("S-pct", "plain -> absolute", n_abs >= 2 and abs_ok and "_abs[i] = _val" in src, (pe.file, pe.lineno), "plain numbers in a shorthand list must become absolute uncertainties (on every axis variant)")
+    R.ob("S-pct", "plain -> absolute", fill_ok and forms_ok and cover[("abs", True)] and cover[("abs", False)], (pe.file, pe.lineno), "plain numbers in a shorthand list must become absolute uncertainties (on every axis variant)")
